@@ -138,7 +138,10 @@ func execDoc(kind string, in []byte, ws []string) string {
 			flag += " !oracle:no-value-no-error"
 		}
 		if perrs != nil {
-			if len(errs) != len(perrs) || showErr(errs[0]) != showErr(perrs[0]) {
+			if errs == nil {
+				// the lexer or the parser recorded an error while this value was parsed, yet a value is returned
+				flag += " !oracle:lexer-error-dropped"
+			} else if len(errs) != len(perrs) || showErr(errs[0]) != showErr(perrs[0]) {
 				flag += " !shim:tojson-differs"
 			}
 			return errsLine(perrs, strconv.Itoa(pulled)) + flag
@@ -154,6 +157,12 @@ func execDoc(kind string, in []byte, ws []string) string {
 		var v2 interface{}
 		errs := dec.Decode(&v2)
 		flag := badErrs(errs)
+		if perrs, _ := jsonx.VerifC08ToJSONParse(in); perrs != nil {
+			// errors recorded while the value was parsed (same parse as ToJSON's): Unmarshal must return the first of them
+			if le, ok := err.(*lexing.Error); !ok || !parsePhase([]*lexing.Error{le}) {
+				return errsLine(perrs, "?") + flag + " !oracle:lexer-error-dropped"
+			}
+		}
 		if parsePhase(errs) {
 			le, ok := err.(*lexing.Error)
 			if !ok || showErr(le) != showErr(errs[0]) {
@@ -724,6 +733,17 @@ func (g *gen) generate(thorough bool) {
 		g.add("series", []byte("t "+s), "number-leaf")
 	}
 	g.capCases()
+	// complete values followed by lexer-level junk: the lexer's error must not be dropped
+	for _, v := range []string{"1", "\"s\"", "{a:1}", "[1,2]", "true", "-1.5", "a.b", "{}", "`r`"} {
+		for _, junk := range []string{"/* abc", "/*", "/**", "#", "$", "\"abc", "`abc", "/", "\xff", "'", "\\", "// c", "/* c */ #", "\"\\q\""} {
+			for _, sep := range []string{" ", "\n", ";", ""} {
+				doc := []byte(v + sep + junk)
+				g.addKinds([]string{"tojson", "unmarshal"}, doc, "value-then-lexer-junk")
+				g.add("series", []byte("t "+v+sep+junk), "value-then-lexer-junk")
+				g.add("series", []byte("t "+v+"\nu "+v+sep+junk), "value-then-lexer-junk")
+			}
+		}
+	}
 	g.utf8Cases(thorough)
 	// token soups
 	g.soupsExhaustive(soupAlphabet, 1, allKinds, "soup-exhaustive-1")
@@ -962,7 +982,7 @@ func main() {
 	rep.Rule = "op = (entry point, input bytes); entry points: jsonx.ToJSON, jsonx.Unmarshal, Decoder.DecodeSeries, strtoken.Parse, " +
 		"the jsonx token stream; inputs: valid documents, all their prefixes, every single-token deletion/insertion, token soups " +
 		"(exhaustive small scopes + random), invalid UTF-8, unterminated strings/comments/brackets, with and without final newline, " +
-		"number-leaf boundaries, error-cap boundaries, nestings around the depth limit (limit-1, limit, limit+1, 10x; lists, objects, mixed; closed and unclosed), deep values after 1..1e6 closed siblings / earlier series statements, runs of 1e4..4Mi unary signs, random bytes; distinct = distinct op line; non-trivial = every op"
+		"number-leaf boundaries, error-cap boundaries, nestings around the depth limit (limit-1, limit, limit+1, 10x; lists, objects, mixed; closed and unclosed), deep values after 1..1e6 closed siblings / earlier series statements, runs of 1e4..4Mi unary signs, complete values followed by lexer-level junk, random bytes; distinct = distinct op line; non-trivial = every op"
 	j := hx.NewJournal(f.Work)
 	run := &runner{timeout: 2 * time.Second, j: j}
 	defer run.close()
@@ -1031,8 +1051,14 @@ func main() {
 			rep.Note("could not run %q: %s", op, detail)
 		}
 		if k := strings.Index(res, " !oracle:"); k >= 0 {
-			key := kind + "-" + strings.Fields(res[k+9:])[0]
-			rep.Fail(key, "neither a value nor an error: "+res, []string{op})
+			name := strings.Fields(res[k+9:])[0]
+			key := kind + "-" + name
+			desc := "neither a value nor an error: " + res
+			if name == "lexer-error-dropped" {
+				key = name
+				desc = kind + " returned a value although the lexer/parser recorded an error while parsing it (error dropped): " + res
+			}
+			rep.Fail(key, desc, []string{op})
 		}
 		if k := strings.Index(res, " !shim:"); k >= 0 {
 			rep.Disagree("shim-vs-public-api", op, res, "(public entry point and shim must agree)")
